@@ -34,8 +34,8 @@ RESETS = ["rollback", "commit", "none"]
 # a session = (ending, isolation, work)
 ISOS = [None, "SERIALIZABLE", "AUTOCOMMIT", "token+SERIALIZABLE", "SERIALIZABLE+AUTOCOMMIT"]  # "a+b": two successive execution_options() calls
 WORKS = ["nothing", "insert", "begin+insert", "insert+begin_nested+insert"]
-ENDINGS = ["close", "commit+close", "exception-in-with-block", "dropped+gc", "invalidate+close", "failed-dbapi-commit+close"]
-E_CLOSE, E_COMMIT, E_EXC, E_GC, E_INVALIDATE, E_FAILCOMMIT = range(6)
+ENDINGS = ["close", "commit+close", "exception-in-with-block", "dropped+gc", "invalidate+close", "failed-dbapi-commit+close", "dropped+gc+failing-pool-reset"]
+E_CLOSE, E_COMMIT, E_EXC, E_GC, E_INVALIDATE, E_FAILCOMMIT, E_GCFAIL = range(7)
 NISO, NWORK, NEND = len(ISOS), len(WORKS), len(ENDINGS)
 # menus: "F" full; "R" reduced (the work shapes that leave most state behind)
 MENU_WORKS = {"F": [0, 1, 2, 3], "R": [3]}
@@ -226,7 +226,12 @@ def _run(pool: str, reset: str, sessions) -> bool:
             except _BlockError:
                 pass
             own_rollback = True
-        elif ending == E_GC:
+        elif ending in (E_GC, E_GCFAIL):
+            if ending == E_GCFAIL:
+                # the DBAPI rollback()/commit() the pool issues as its reset-on-return fails
+                srv.fault_ops = {"rollback", "commit"}
+                for k in range(1, 9):
+                    srv.faults[srv.calls + k] = "error"
             alive = weakref.ref(conn)
             conn = None
             gc.collect(0)  # gc is disabled during the history: everything allocated since is in generation 0
@@ -234,6 +239,11 @@ def _run(pool: str, reset: str, sessions) -> bool:
                 gc.collect()
             if alive() is not None:
                 _fail("harness:dropped-connection-not-collected")
+            if ending == E_GCFAIL:
+                srv.faults.clear()
+                srv.fault_ops = None
+                pending = []
+                inherited = []
         else:
             conn.close()
         conn = None
